@@ -25,4 +25,73 @@ PROPS = {
         quick=dict(checks=3000, timeout=900, env={"VERIF_GRPC_DIV": 10}),
         thorough=dict(checks=40000, shards=16, timeout=3000, env={"VERIF_GRPC_DIV": 20}),
     ),
+    "C05": dict(
+        run="^TestC05$",
+        level="exploration",
+        rule=("histories of 8-30 (thorough: 60) real API calls on ordered subscriptions drawn by a rapid state machine from the reference model's state: single and batched publishes mixing "
+              "3 ordering keys and un-keyed messages, pulls of size 1..1000, acks in any order, stream acks/nacks, modacks, lease and retention lapses (virtual clock), dead-lettering of "
+              "predecessors, seeks and prune jobs, followed by a drain; oracle: reference model - a pull never returns a message whose earlier same-key message is still outstanding, "
+              "and blocked successors do arrive once predecessors settle; non-trivial = at some pull a same-key predecessor was outstanding while a message with another key or no key had "
+              "been published between the two; distinct by hash of the operation list"),
+        assumptions=["virtual clock: time.Now/Since/Until in actions/ and services/ are redirected by the build overlay", "SQLite backend only",
+                     "forwards into an ordered dead-letter subscription from different source topics with one key are not ordered by the statement (treated as 'may')"],
+        quick=dict(checks=250, timeout=900),
+        thorough=dict(checks=600, shards=16, timeout=3000),
+    ),
+    "C01": dict(
+        run="^TestC01$",
+        level="exploration",
+        rule="histories of real API calls drawn by a rapid state machine from the reference model's current state (virtual clock; profile C01), followed by a drain phase where stated; oracle: observation-driven reference model of Pub/Sub semantics (must / must-not / may sets per pull); 1-3 topics, 1-4 subscriptions with every configuration dimension, publishes, pulls, acks, modacks, stream nacks, seeks, snapshots, sweeps, prune jobs, expiry runs, failed requests, clock advances, then drain until the model owes nothing; non-trivial = history with >=1 redelivery after a lease lapse or nack and >=1 of {seek, sweep, prune job, delete}; distinct by hash of the operation list",
+        assumptions=['virtual clock: time.Now/Since/Until in actions/ and services/ are redirected by the build overlay', 'SQLite backend only', "every time comparison carries a 10 ms margin; anything inside a margin or inside the <1 s jitter window is 'may'"],
+        quick=dict(checks=400, timeout=1200),
+        thorough=dict(checks=700, shards=16, timeout=3000),
+    ),
+    "C02": dict(
+        run="^(TestC02|TestC02Projection)$",
+        level="exploration",
+        rule="histories of real API calls drawn by a rapid state machine from the reference model's current state (virtual clock; profile C02), followed by a drain phase where stated; oracle: observation-driven reference model of Pub/Sub semantics (must / must-not / may sets per pull); payloads from a JSON corpus (whitespace, unicode, HTML-sensitive, huge numbers) and generated strings, attribute maps, unicode ordering keys; fidelity by JSON value equality; independence by comparing the pull trace of one subscription in history H and in H projected onto that subscription; non-trivial = a pull response with >=2 messages on a topic with >=2 subscriptions with different filters (fidelity part); projection pairs whose removed operations include an ack/seek/delete on a sibling subscription; distinct by hash of the operation list",
+        assumptions=['virtual clock: time.Now/Since/Until in actions/ and services/ are redirected by the build overlay', 'SQLite backend only', "every time comparison carries a 10 ms margin; anything inside a margin or inside the <1 s jitter window is 'may'"],
+        quick=dict(checks=400, timeout=1200),
+        thorough=dict(checks=600, shards=16, timeout=3000),
+    ),
+    "C03": dict(
+        run="^TestC03$",
+        level="exploration",
+        rule="histories of real API calls drawn by a rapid state machine from the reference model's current state (virtual clock; profile C03), followed by a drain phase where stated; oracle: observation-driven reference model of Pub/Sub semantics (must / must-not / may sets per pull); biased to pull / ack / duplicate ack / foreign and unknown ids / nack-after-ack / modack-after-ack / sweeps / lease lapses; non-trivial = an acknowledged id is later nacked or modacked and >=2 later pulls see it as acked; distinct by hash of the operation list",
+        assumptions=['virtual clock: time.Now/Since/Until in actions/ and services/ are redirected by the build overlay', 'SQLite backend only', "every time comparison carries a 10 ms margin; anything inside a margin or inside the <1 s jitter window is 'may'"],
+        quick=dict(checks=400, timeout=1200),
+        thorough=dict(checks=700, shards=16, timeout=3000),
+    ),
+    "C04": dict(
+        run="^(TestC04|TestC04Concurrent)$",
+        level="exploration",
+        rule="histories of real API calls drawn by a rapid state machine from the reference model's current state (virtual clock; profile C04), followed by a drain phase where stated; oracle: observation-driven reference model of Pub/Sub semantics (must / must-not / may sets per pull); one or two subscriptions, retry policies absent / min only / max only / both from 100 ms to hours, up to 140 steps of pull / modack / nack / advance landing just before and just after each deadline; non-trivial = a message reaches attempt >=3 with at least one modack in between (sequential); both pullers' fetch transactions fall inside one lease window (concurrent); distinct by hash of the operation list",
+        assumptions=['virtual clock: time.Now/Since/Until in actions/ and services/ are redirected by the build overlay', 'SQLite backend only', "every time comparison carries a 10 ms margin; anything inside a margin or inside the <1 s jitter window is 'may'"],
+        quick=dict(checks=300, timeout=1200),
+        thorough=dict(checks=500, shards=16, timeout=3000),
+    ),
+    "C06": dict(
+        run="^TestC06$",
+        level="exploration",
+        rule="histories of real API calls drawn by a rapid state machine from the reference model's current state (virtual clock; profile C06), followed by a drain phase where stated; oracle: observation-driven reference model of Pub/Sub semantics (must / must-not / may sets per pull); N in 1..4 and default, dead-letter topics with 0..3 subscriptions (filtered, ordered), deleted dead-letter topics, chains, pull / nack / modack / ack / advance / sweep in any order; self-loop topologies excluded by construction; non-trivial = history in which at least one message is forwarded to a dead-letter topic; distinct by hash of the operation list",
+        assumptions=['virtual clock: time.Now/Since/Until in actions/ and services/ are redirected by the build overlay', 'SQLite backend only', "every time comparison carries a 10 ms margin; anything inside a margin or inside the <1 s jitter window is 'may'"],
+        quick=dict(checks=400, timeout=1200),
+        thorough=dict(checks=700, shards=16, timeout=3000),
+    ),
+    "C13": dict(
+        run="^TestC13$",
+        level="exploration",
+        rule="histories of real API calls drawn by a rapid state machine from the reference model's current state (virtual clock; profile C13), followed by a drain phase where stated; oracle: observation-driven reference model of Pub/Sub semantics (must / must-not / may sets per pull); publish / pull / partial ack / snapshot / seek to times (past, exact publish time, now, future) and to snapshots of the same or a same-filter sibling subscription, repeated seeks, then drain; non-trivial = a seek both acknowledges >=1 outstanding message and revives >=1 acknowledged message; distinct by hash of the operation list",
+        assumptions=['virtual clock: time.Now/Since/Until in actions/ and services/ are redirected by the build overlay', 'SQLite backend only', "every time comparison carries a 10 ms margin; anything inside a margin or inside the <1 s jitter window is 'may'"],
+        quick=dict(checks=400, timeout=1200),
+        thorough=dict(checks=700, shards=16, timeout=3000),
+    ),
+    "C14": dict(
+        run="^TestC14$",
+        level="exploration",
+        rule="histories of real API calls drawn by a rapid state machine from the reference model's current state (virtual clock; profile C14), followed by a drain phase where stated; oracle: observation-driven reference model of Pub/Sub semantics (must / must-not / may sets per pull); retention 10 min..30 d, TTL 1 d..60 d with expiration_policy updates, injected delay through the real DelayInjectorController, advances landing 30 ms before / after each deadline, expiry sweeps with batch 1 and 100; non-trivial = a retention, TTL or delay deadline is observed from the forbidden side (a pull that must not return the message / a sweep around a TTL) in a history that also delivers messages; distinct by hash of the operation list",
+        assumptions=['virtual clock: time.Now/Since/Until in actions/ and services/ are redirected by the build overlay', 'SQLite backend only', "every time comparison carries a 10 ms margin; anything inside a margin or inside the <1 s jitter window is 'may'"],
+        quick=dict(checks=400, timeout=1200),
+        thorough=dict(checks=700, shards=16, timeout=3000),
+    ),
 }
